@@ -18,6 +18,7 @@ import Pandora.Proofs.C08Fault
 import Pandora.Proofs.C08Bisim
 import Pandora.Proofs.C08Coin
 import Pandora.Proofs.C08Pick
+import Pandora.Proofs.C08Size
 import Pandora.Bridge.ProvLoops
 import Pandora.Drv.C08
 
@@ -975,5 +976,80 @@ example : Kind.hasFilter .jsonArray = true ∧ 0 < (chosenOf 4 [3]).length ∧ S
 example : (runSrc .inline ⟨.genericJson, false, ⟨5, 3⟩, none⟩ 2).map (·.delivered) = some [0, 1, 0, 1, 0] ∧
     (runSrc .buffer ⟨.genericJson, false, ⟨5, 3⟩, none⟩ 2).map (·.delivered) = some [0, 1] := by decide
 example : SrcKind.seekable .readSeekCloser = true ∧ SrcKind.seekable .reader = false := by decide
+
+/-! ## round 6: the size of an entry and the `maxammosize` option -/
+
+/-- **every line that fits is read, in every pass** — grpc/json over a file whose lines have ANY lengths below the token
+limit the configuration gives its scanner (`maxammosize`, or bufio.MaxScanTokenSize when it is not set; the limit is
+REGENERATED pass by pass, `Bridge.ProvLoops.grpcScanMax_eq`) is the cell without sizes — with and without a chosencases
+option, for every limit, passes and cancellation point: all the theorems about `run` / `runPick` hold of it. -/
+theorem C08_size_run (inp : Input) (hk : inp.kind = .grpcJson) (sizes : List Nat) (mas : Nat)
+    (hfit : ∀ len, len ∈ sizes → len < tokMax mas) :
+    runGrpcSz inp sizes mas none = run inp sizes.length ∧
+    ∀ pick, runGrpcSz inp sizes mas (some pick) = runPick inp sizes.length pick :=
+  ⟨runGrpcSz_eq_run inp hk sizes mas hfit, fun pick => runGrpcSz_eq_runPick inp hk sizes mas pick hfit⟩
+
+/-- **count with sizes**: a non-empty grpc/json file whose lines fit, any limit and passes: exactly `min⁺(limit, passes·n)`
+ammo in file order, `Run` = nil, sink closed — however large the lines and the option are -/
+theorem C08_size_count (b : Bounds) (sizes : List Nat) (mas m : Nat) (hn : sizes ≠ [])
+    (hfit : ∀ len, len ∈ sizes → len < tokMax mas)
+    (hm : Spec.C08.expected b.limit b.passes sizes.length = some m) :
+    ∃ o, runGrpcSz ⟨.grpcJson, false, b, none⟩ sizes mas none = some o ∧ o.delivered = cyc sizes.length m ∧
+      o.run = .nil ∧ o.sinkClosed = true := by
+  have hpos : 0 < sizes.length := by cases sizes with | nil => exact absurd rfl hn | cons a l => simp
+  rw [(C08_size_run ⟨.grpcJson, false, b, none⟩ rfl sizes mas hfit).1]
+  exact C08_count .grpcJson false b sizes.length m hpos hm
+
+/-- **a line that does not fit ends `Run` at once with the scanner's error** (no retry, no spin, before the limit is
+looked at), whatever the state of the loop -/
+theorem C08_size_unreadable {α : Type} (file : List α) (chosen : α → Bool) (b : Bounds) (cancelAt : Option Nat)
+    (rd : Nat → Nat → Bool) (fuel : Nat) (s : GrpcSt) (out : List α)
+    (hpos : s.pos < file.length) (hrd : rd s.passNum s.pos = false) :
+    grpcLoopSz file chosen b cancelAt rd (fuel + 1) s out = some (out, .errOther) :=
+  grpcLoopSz_unreadable file chosen b cancelAt rd fuel s out hpos hrd
+
+/-- **what is readable does not depend on the pass** — for every kind, option value, file and position: the reader of a
+later pass reads exactly the lines the reader of the first pass reads; uri reads every line a 64-bit machine can hold,
+the readers without a token limit (uripost, raw, http/json, the generic JSON provider) every line -/
+theorem C08_size_every_pass (k : Kind) (mas : Nat) (sizes : List Nat) (p i : Nat) :
+    readable k mas sizes p i = readable k mas sizes 1 i ∧
+    ((∀ len, len ∈ sizes → len < maxInt) → readable .uri mas sizes p i = true) ∧
+    (k ≠ .grpcJson ∧ k ≠ .uri → readable k mas sizes p i = true) :=
+  ⟨rfl, fun h => readable_uri mas sizes h p i, fun h => readable_unlimited k h mas sizes p i⟩
+
+/-- the line-level reader of `C08_scan_lines` over lines with lengths that all fit is the reader without sizes: the
+theorems about `scanFile` / `loadLines` hold of sized files -/
+theorem C08_size_lines (f : Lines) (fits : Nat → Bool) (hfit : ∀ i, i < f.length → fits i = true) (pos : Nat) :
+    rdAtSz f fits pos = rdAt f pos := rdAtSz_eq f fits hfit pos
+
+/-- the count clause for a provider whose scanner gets the configured buffer in the FIRST pass only (the set-up hoisted
+out of the pass loop, a plain `bufio.NewScanner` after the seek) -/
+def C08_size_first_only_statement : Prop :=
+  ∀ (b : Bounds) (sizes : List Nat) (mas m : Nat), sizes ≠ [] → (∀ len, len ∈ sizes → len < tokMax mas) →
+    Spec.C08.expected b.limit b.passes sizes.length = some m →
+    ∃ out, grpcLoopSz (List.range sizes.length) (fun _ => true) b none
+        (fun p i => match sizes[i]? with | some len => fitsTok (lineMaxFirstOnly mas p) len | none => true)
+        (fuelFor m sizes.length sizes.length) GrpcSt.init [] = some (out, .nil) ∧ out = cyc sizes.length m
+
+/-- … is FALSE: one line of 70000 bytes, `maxammosize: 100000`, `passes: 2` — the first pass delivers it, the second
+ends with bufio.ErrTooLong -/
+theorem C08_size_first_only_counterexample : ¬ C08_size_first_only_statement := by
+  intro h
+  obtain ⟨out, h1, _⟩ := h ⟨0, 2⟩ [70000] 100000 2 (by simp) (by simp [tokMax]) (by decide)
+  have e : grpcLoopSz (List.range [70000].length) (fun _ => true) ⟨0, 2⟩ none
+      (fun p i => match [70000][i]? with | some len => fitsTok (lineMaxFirstOnly 100000 p) len | none => true)
+      (fuelFor 2 [70000].length [70000].length) GrpcSt.init [] = some ([0], .errOther) := by decide
+  rw [e] at h1
+  cases h1
+
+-- non-vacuity: two lines of 70000 and 60 bytes, maxammosize 100000, three passes, limit 5
+example : (runGrpcSz ⟨.grpcJson, false, ⟨5, 3⟩, none⟩ [70000, 60] 100000 none).map (fun o => (o.delivered, o.run, o.sinkClosed))
+    = some ([0, 1, 0, 1, 0], .nil, true) ∧ (∀ len, len ∈ [70000, 60] → len < tokMax 100000) := by decide
+-- the same file without the option: the first line is refused, `Run` reports it, nothing delivered; big line second: one ammo
+example : (runGrpcSz ⟨.grpcJson, false, ⟨5, 3⟩, none⟩ [70000, 60] 0 none).map (fun o => (o.delivered, o.run, o.sinkClosed))
+    = some ([], .errOther, true) ∧
+    (runGrpcSz ⟨.grpcJson, false, ⟨1, 0⟩, none⟩ [60, 70000] 0 none).map (fun o => (o.delivered, o.run)) = some ([0], .errOther) := by decide
+-- hypotheses of C08_size_unreadable
+example : (GrpcSt.init).pos < (List.range 2).length ∧ readable .grpcJson 0 [70000, 60] GrpcSt.init.passNum GrpcSt.init.pos = false := by decide
 
 end Pandora.Props.C08
